@@ -5,7 +5,7 @@ import CashewsVerif.Model.TxSched
   case <nkeys>                     -> ok            (forget everything)
   init <k> <v>                     -> ok
   task <tx|plain> <fast|locked|serializable> <timeout u> <ctx|dec> <op>*   -> ok
-        op = set:k:v | incr:k:n | get:k | del:k | expire:k | setx:k:v:0|1 | sleep:d | raise | raise:base | raise:falsy | raise:falsybase | nin:ctx | nin:dec | nout
+        op = set:k:v | incr:k:n | get:k | del:k | expire:k | setx:k:v:0|1 | sleep:d | raise | raise:base | raise:falsy | raise:falsybase | nin:ctx | nin:dec | nout | nfail[:base|:falsy|:falsybase] (inner block left by an exception the outer body catches)
            | commit | rollback      (explicit `tx.commit()` / `tx.rollback()` inside the body)
   run <tid>                        -> label=<command the task was parked before> store=… locks=… now=…
   adv <u>                          -> store=… locks=… now=…
@@ -43,7 +43,11 @@ def parseCmd? (s : String) : Option Cmd :=
   | ["commit"] => some .commit
   | ["rollback"] => some .rollback
   | ["nin", f] => do pure (.nestIn (← parseForm? f))
-  | ["nout"] => some .nestOut
+  | ["nout"] => some (.nestOut none)
+  | ["nfail"] => some (.nestOut (some ⟨false, false⟩))          -- the inner block is left by an exception caught right outside it
+  | ["nfail", "base"] => some (.nestOut (some ⟨true, false⟩))
+  | ["nfail", "falsy"] => some (.nestOut (some ⟨false, true⟩))
+  | ["nfail", "falsybase"] => some (.nestOut (some ⟨true, true⟩))
   | _ => none
 
 def insSorted (x : Nat) : List Nat → List Nat
